@@ -28,6 +28,8 @@ type C13Case struct {
 	Readers []int  `json:"readers"` // index offsets (from first) each reader gets, parked inside ReadAt
 	Kind    string `json:"kind"`    // head, tail, all
 	Cut     int    `json:"cut"`
+	Start   uint64 `json:"start"` // index of the first entry (a start other than the empty tail's base re-bases it)
+	Again   bool   `json:"again"` // after the truncation append once more and truncate everything
 }
 
 func dirVsMeta(fs *simfs.FS) (extra, missing []string) {
@@ -66,7 +68,11 @@ func runC13(c C13Case) (res common.Result) {
 	defer w.Close()
 	m := refmodel.NewLogModel()
 	for i := 0; i < c.N; i++ {
-		l := kit.EntrySpec{DataLen: c.SegSize / 3, Seed: uint8(i)}.Make(uint64(i+1), 0)
+		st := c.Start
+		if st == 0 {
+			st = 1
+		}
+		l := kit.EntrySpec{DataLen: c.SegSize / 3, Seed: uint8(i)}.Make(st+uint64(i), 0)
 		if err := w.StoreLogs([]*raft.Log{l}); err != nil {
 			res.Fail = common.Failf("harness", "%v", err)
 			return
@@ -180,7 +186,38 @@ func runC13(c C13Case) (res common.Result) {
 		res.Fail = common.Failf("model/"+sig, "%s", msg)
 		return
 	}
-	res.NonTrivial = pinned > 0 && len(before) != len(fs.Names())
+	if c.Again {
+		// append again (re-basing an emptied log) and remove everything: nothing but the new tail may remain
+		nxt := m.Last + 1
+		if m.Empty() {
+			nxt = max + 5
+		}
+		l := kit.EntrySpec{DataLen: 10, Seed: 77}.Make(nxt, 1)
+		if err := w.StoreLogs([]*raft.Log{l}); err != nil {
+			res.Fail = common.Failf("append-err", "StoreLogs(%d) after the truncation = %v", nxt, err)
+			return
+		}
+		m.Append([]*raft.Log{l})
+		kit.Barrier(w)
+		if err := w.DeleteRange(m.First, m.Last); err != nil {
+			res.Fail = common.Failf("delete-err", "DeleteRange(everything) = %v", err)
+			return
+		}
+		m.Delete(m.First, m.Last)
+		kit.Barrier(w)
+		extra, missing = dirVsMeta(fs)
+		if len(extra) > 0 || len(missing) > 0 {
+			res.Fail = common.Failf("files-not-reclaimed", "after re-append and DeleteRange of everything: files not in metadata %v, missing %v", extra, missing)
+			return
+		}
+		st2, _ := fs.MetaState()
+		if n := fs.OpenHandles(); n != len(st2.Segments) {
+			res.Fail = common.Failf("handles-leak", "%d file handles open for %d live segments after deleting everything", n, len(st2.Segments))
+			return
+		}
+		res.Classes = append(res.Classes, "reappend-then-delete-all")
+	}
+	res.NonTrivial = (pinned > 0 && len(before) != len(fs.Names())) || c.Again
 	if pinned > 0 {
 		res.Classes = append(res.Classes, "truncation-with-pinned-reader")
 	}
@@ -199,6 +236,11 @@ func TestC13Pinned(t *testing.T) {
 		}
 		c.Kind = rapid.SampledFrom([]string{"head", "head", "tail", "all"}).Draw(t, "kind")
 		c.Cut = rapid.IntRange(0, 13).Draw(t, "cut")
+		c.Start = rapid.SampledFrom([]uint64{1, 1, 2, 100, 1 << 33}).Draw(t, "start")
+		c.Again = rapid.Bool().Draw(t, "again")
+		if rapid.IntRange(0, 3).Draw(t, "short") == 0 {
+			c.N = rapid.IntRange(1, 3).Draw(t, "shortN") // stays in the first segment: no rotation before the truncation
+		}
 		return c
 	}, runC13)
 }
